@@ -205,7 +205,14 @@ class Scheduler(object):
     def _take_choice(self, kind, n, tids, cur_enabled, info, costs=None):
         key = None
         if self.state_fn is not None and self.pos >= len(self.prefix):
-            key = self.state_fn(self)
+            try:
+                key = self.state_fn(self)
+            except Exception as ex:     # noqa
+                # a failing state function must end the run (as a harness error), never leave the threads parked
+                self.errors.append("STATE-KEY: %r" % (ex,))
+                if self.outcome is None:
+                    self.outcome = "harness-error"
+                return None
         idx = len(self.points)
         if self.pos < len(self.prefix):
             c = self.prefix[self.pos]
